@@ -2,6 +2,7 @@
 // integrator monotonicity, documented difference equations (exact class), positional =
 // incremental while no limit is active, zero = fresh.
 #include "fuzzy_gen.h"
+#include <memory>
 #include <algorithm>
 extern "C" {
 #include "a/pid.h"
@@ -258,15 +259,24 @@ static void case_fuzzy(Tape &t, Ctx &cx)
     memset(&z, 0, sizeof(z));
     apply(z.pid, c);
     install_opr(&z, f.opr, f.opr_style);
-    auto dup = [](std::vector<R> const &v) {
+    // the membership and rule tables are const inputs of the controller: in half of the cases they live in read-only memory
+    bool ro_tables = ((f.n + f.opr) & 1) != 0;
+    std::vector<std::unique_ptr<RoBlock>> ro_keep;
+    auto dup = [&](std::vector<R> const &v) {
+        if (ro_tables)
+        {
+            ro_keep.emplace_back(new RoBlock(v.data(), sizeof(R) * v.size(), sizeof(R)));
+            if (ro_keep.back()->p) { return (R *)ro_keep.back()->p; }
+        }
         R *p = (R *)malloc(sizeof(R) * v.size());
         memcpy(p, v.data(), sizeof(R) * v.size());
         return p;
     };
     R *me = dup(f.me), *mec = dup(f.mec), *kp = dup(f.kp), *ki = dup(f.ki), *kd = dup(f.kd);
+    bool heap_tables = ro_keep.empty();
     size_t nb = A_PID_FUZZY_BFUZZ(f.n); // room for every set being active at once
     void *buf = malloc(nb), *buf2 = malloc(nb);
-    struct Fr { R *a, *b, *c, *d, *e; void *buf, *buf2; ~Fr() { free(a); free(b); free(c); free(d); free(e); free(buf); free(buf2); } } fr{me, mec, kp, ki, kd, buf, buf2};
+    struct Fr { R *a, *b, *c, *d, *e; void *buf, *buf2; bool heap; ~Fr() { if (heap) { free(a); free(b); free(c); free(d); free(e); } free(buf); free(buf2); } } fr{me, mec, kp, ki, kd, buf, buf2, heap_tables};
     a_pid_fuzzy fresh;
     bool have_fresh = false;
     a_pid_fuzzy_set_rule(&z, f.n, me, mec, f.use_kp ? kp : nullptr, f.use_ki ? ki : nullptr, f.use_kd ? kd : nullptr);
